@@ -848,3 +848,30 @@ impl<R: BufRead> BitReader<R> {
         Self::new(reader)
     }
 }
+
+#[cfg(image_webp_verif)]
+impl<R: BufRead> LosslessDecoder<R> {
+    /// `read_huffman_code(alphabet_size)` at the start of `reader`, then up to `n` symbols read
+    /// from the same bit reader with the tree it returned (`fill` before each, as the pixel loop
+    /// does): whether the tree is a single node, the symbols, and the error that stopped the reads.
+    pub(crate) fn verif_read_code(
+        reader: R,
+        alphabet_size: u16,
+        n: usize,
+    ) -> Result<(bool, Vec<u16>, Option<DecodingError>), DecodingError> {
+        let mut d = Self::new(reader);
+        let tree = d.read_huffman_code(alphabet_size)?;
+        let single = tree.is_single_node();
+        let mut out = Vec::new();
+        for _ in 0..n {
+            if let Err(e) = d.bit_reader.fill() {
+                return Ok((single, out, Some(e)));
+            }
+            match tree.read_symbol(&mut d.bit_reader) {
+                Ok(s) => out.push(s),
+                Err(e) => return Ok((single, out, Some(e))),
+            }
+        }
+        Ok((single, out, None))
+    }
+}
